@@ -40,8 +40,8 @@ Definition SKIPROWS : nat := 1.
 Definition SENTINEL : Q := fl (- (9999 # 1)).
 Definition EV_TO_KEV : Q := fl (1 # 1000).
 
-(* a row of the loaded array: E (keV), f1 (None = NaN), f2 *)
-Definition xrow := (Q * option Q * Q)%type.
+(* a row of the loaded array: E (keV), then f1 (None = NaN) and f2 *)
+Definition xrow := (Q * (option Q * Q))%type.
 Definition xtable := list xrow.
 
 Definition xsf_row (r : list Q) : option xrow :=
@@ -50,7 +50,7 @@ Definition xsf_row (r : list Q) : option xrow :=
       match r1 with
       | f1 :: r2 =>
           match r2 with
-          | f2 :: _ => Some (fl (e * EV_TO_KEV), (if Qeq_bool f1 SENTINEL then None else Some f1), f2)
+          | f2 :: _ => Some (fl (e * EV_TO_KEV), ((if Qeq_bool f1 SENTINEL then None else Some f1), f2))
           | [] => None
           end
       | [] => None
@@ -62,18 +62,19 @@ Definition nff_table (lines : list string) : option xtable :=
   do rows <- loadtxt SKIPROWS lines;
   map_opt xsf_row rows.
 
-Definition col1 (t : xtable) : list (Q * option Q) := map (fun r => (fst (fst r), snd (fst r))) t.
-Definition col2 (t : xtable) : list (Q * option Q) := map (fun r => (fst (fst r), Some (snd r))) t.
+Definition col1 (t : xtable) : list (Q * option Q) := map (fun r => (fst r, fst (snd r))) t.
+Definition col2 (t : xtable) : list (Q * option Q) := map (fun r => (fst r, Some (snd (snd r)))) t.
 
 (* ------------------------------------------------------------------ numpy.interp *)
 (* where x falls in the abscissae: the last j with xp[j] <= x (numpy's search result on a
    non-decreasing array) *)
-Inductive loc :=
+Inductive loc (A : Type) :=
 | LOut                                            (* x < xp[0] or x > xp[-1]: left / right *)
-| LNode (y : option Q)                            (* x == xp[j]: fp[j] *)
-| LSeg (xj : Q) (yj : option Q) (xk : Q) (yk : option Q).   (* xp[j] < x < xp[j+1] *)
+| LNode (y : A)                                   (* x == xp[j]: fp[j] *)
+| LSeg (xj : Q) (yj : A) (xk : Q) (yk : A).       (* xp[j] < x < xp[j+1] *)
+Arguments LOut {A}. Arguments LNode {A}. Arguments LSeg {A}.
 
-Fixpoint locate_from (xj : Q) (yj : option Q) (rest : list (Q * option Q)) (x : Q) : loc :=
+Fixpoint locate_from {A} (xj : Q) (yj : A) (rest : list (Q * A)) (x : Q) : loc A :=
   match rest with
   | [] => if Qeq_bool x xj then LNode yj else LOut
   | (xk, yk) :: r =>
@@ -81,7 +82,7 @@ Fixpoint locate_from (xj : Q) (yj : option Q) (rest : list (Q * option Q)) (x : 
       else locate_from xk yk r x
   end.
 
-Definition locate (xs : list (Q * option Q)) (x : Q) : loc :=
+Definition locate {A} (xs : list (Q * A)) (x : Q) : loc A :=
   match xs with
   | [] => LOut
   | (x0, y0) :: r => if Qlt_le_dec x x0 then LOut else locate_from x0 y0 r x
@@ -102,16 +103,45 @@ Definition interp_nan (xs : list (Q * option Q)) (x : Q) : option Q :=
   | LSeg xj yj xk yk => lin xj yj xk yk x
   end.
 
-(* magnitude of the terms entering the interpolated value (for the rounding allowance) *)
-Definition oabs (y : option Q) : Q := match y with Some v => Qabs v | None => 0 end.
-Definition interp_scale (xs : list (Q * option Q)) (x : Q) : Q :=
-  match locate xs x with
-  | LOut => 0
-  | LNode y => oabs y
-  | LSeg _ yj _ yk => oabs yj + oabs yk
+(* the same search by bisection, for running the model on long tables: the bracket found is
+   verified, anything else falls back to [locate]; equal to [locate] on increasing abscissae
+   (Proofs/C05Interp.v: locate_fast_correct) *)
+Fixpoint bisect {A} (fuel : nat) (xs : list (Q * A)) (x : Q) (lo hi : nat) : nat :=
+  match fuel with
+  | O => lo
+  | S f =>
+      if Nat.leb hi (S lo) then lo else
+      let mid := Nat.div2 (lo + hi) in
+      match nth_error xs mid with
+      | Some (xm, _) => if Qlt_le_dec x xm then bisect f xs x lo mid else bisect f xs x mid hi
+      | None => lo
+      end
   end.
-Definition at_node (xs : list (Q * option Q)) (x : Q) : bool :=
-  match locate xs x with LNode _ => true | _ => false end.
+
+Definition locate_fast {A} (xs : list (Q * A)) (x : Q) : loc A :=
+  let n := List.length xs in
+  match skipn (bisect n xs x 0 (n - 1)) xs with
+  | (xj, yj) :: (xk, yk) :: _ =>
+      if (Qle_bool xj x && negb (Qle_bool xk x))%bool
+      then (if Qeq_bool x xj then LNode yj else LSeg xj yj xk yk)
+      else locate xs x
+  | _ => locate xs x
+  end.
+
+(* magnitude of the terms entering an interpolated value (for the rounding allowance) *)
+Definition oabs (y : option Q) : Q := match y with Some v => Qabs v | None => 0 end.
+
+(* both columns from one search: ((f1, f2), (scale1, scale2)); L is [locate] or [locate_fast] *)
+Definition locator := xtable -> Q -> loc (option Q * Q).
+Definition sfs (L : locator) (t : xtable) (x : Q) : (option Q * option Q) * (Q * Q) :=
+  match L t x with
+  | LOut => ((None, None), (0, 0))
+  | LNode (y1, y2) => ((y1, Some y2), (oabs y1, Qabs y2))
+  | LSeg xj (a1, a2) xk (b1, b2) =>
+      ((lin xj a1 xk b1 x, lin xj (Some a2) xk (Some b2) x), (oabs a1 + oabs b1, Qabs a2 + Qabs b2))
+  end.
+Definition at_node (L : locator) (t : xtable) (x : Q) : bool :=
+  match L t x with LNode _ => true | _ => false end.
 
 (* ------------------------------------------------------------------ energy <-> wavelength *)
 (* plancks_constant*speed_of_light/x*1e7 : the documented relation, over Q, and the same
@@ -146,7 +176,7 @@ Definition sftable (eb : ebase) (fs : files) (a : atom) : res xtable :=
   | Some lines => match nff_table lines with Some t => Val t | None => Raise end
   end.
 
-(* scattering_factors(energy=x) on a loaded table *)
+(* scattering_factors(energy=x) on a loaded table: numpy.interp on column 1 and on column 2 *)
 Definition sf (t : xtable) (x : Q) : option Q * option Q :=
   (interp_nan (col1 t) x, interp_nan (col2 t) x).
 (* a vector argument is treated element by element *)
@@ -162,19 +192,16 @@ Definition oscale (k : Q) (a : option Q) : option Q :=
 (* sum_f += f*quantity over compound.atoms, in dict order *)
 Definition fsum (F : atom -> option Q) (d : dict) : option Q :=
   fold_left (fun acc p => oadd acc (oscale (snd p) (F (fst p)))) d (Some 0).
-(* the same with absolute values, as the scale of the rounding allowance *)
-Definition fsum_abs (F : atom -> Q) (d : dict) : Q :=
-  fold_left (fun acc p => acc + Qabs (snd p) * F (fst p)) d 0.
 
 (* N = density/mass*avogadro_number*1e-8 ; rho = N*sum_f*electron_radius *)
 Definition sld_of (re na : Q) (density mass : Q) (s : option Q) : option Q :=
   oscale (density / mass * na * (1 # 100000000)) (oscale re s).
 
-(* xray_sld(compound, density=, natural_density=, energy=x) for a compound given by its
-   structure.  Raise: assertion (no density) or ValueError (an atom without a table). *)
 Definition has_table (T : atom -> res xtable) (d : dict) : bool :=
   forallb (fun p => match T (fst p) with Val _ => true | _ => false end) d.
 
+(* xray_sld(compound, density=, natural_density=, energy=x) for a compound given by its
+   structure.  Raise: assertion (no density) or ValueError (an atom without a table). *)
 Definition xray_sld_model (E : aenv) (re na : Q) (T : atom -> res xtable)
            (s : struct) (density natural_density : option Q) (x : Q) : res (option Q * option Q) :=
   match init_density E s density natural_density with
@@ -184,22 +211,36 @@ Definition xray_sld_model (E : aenv) (re na : Q) (T : atom -> res xtable)
       if negb (has_table T d) then Raise else
       let m := dweight (e_mass E) d in
       if Qeq_bool m 0 then Val (Some 0, Some 0) else
-      let F1 a := match T a with Val t => interp_nan (col1 t) x | _ => None end in
-      let F2 a := match T a with Val t => interp_nan (col2 t) x | _ => None end in
+      let F1 a := match T a with Val t => fst (sf t x) | _ => None end in
+      let F2 a := match T a with Val t => snd (sf t x) | _ => None end in
       Val (sld_of re na rho m (fsum F1 d), sld_of re na rho m (fsum F2 d))
   end.
 
-Definition xray_sld_scale (E : aenv) (re na : Q) (T : atom -> res xtable)
-           (s : struct) (density natural_density : option Q) (x : Q) : Q * Q :=
+(* the same computation with one table search per atom, returning also the magnitude of the
+   terms: ((rho, irho), (scale_rho, scale_irho)).  With L = locate it is xray_sld_model. *)
+Definition sum4 (L : locator) (T : atom -> res xtable) (x : Q) (d : dict)
+  : (option Q * option Q) * (Q * Q) :=
+  fold_left (fun acc p =>
+               let '((v1, v2), (s1, s2)) := acc in
+               let '((f1, f2), (a1, a2)) :=
+                 match T (fst p) with Val t => sfs L t x | _ => ((None, None), (0, 0)) end in
+               ((oadd v1 (oscale (snd p) f1), oadd v2 (oscale (snd p) f2)),
+                (s1 + Qabs (snd p) * a1, s2 + Qabs (snd p) * a2)))
+            d ((Some 0, Some 0), (0, 0)).
+
+Definition xray_sld_run (L : locator) (E : aenv) (re na : Q) (T : atom -> res xtable)
+           (s : struct) (density natural_density : option Q) (x : Q)
+  : res ((option Q * option Q) * (Q * Q)) :=
   match init_density E s density natural_density with
-  | None => (0, 0)
+  | None => Raise
   | Some rho =>
       let d := count_atoms s in
+      if negb (has_table T d) then Raise else
       let m := dweight (e_mass E) d in
-      let S1 a := match T a with Val t => interp_scale (col1 t) x | _ => 0 end in
-      let S2 a := match T a with Val t => interp_scale (col2 t) x | _ => 0 end in
+      if Qeq_bool m 0 then Val ((Some 0, Some 0), (0, 0)) else
+      let '((v1, v2), (s1, s2)) := sum4 L T x d in
       let k := Qabs (rho / m * na * (1 # 100000000) * re) in
-      (k * fsum_abs S1 d, k * fsum_abs S2 d)
+      Val ((sld_of re na rho m v1, sld_of re na rho m v2), (k * s1, k * s2))
   end.
 
 (* Xray.sld of a bare atom: f*electron_radius*number_density*1e-8, (None, None) when there is
@@ -214,13 +255,6 @@ Definition el_sld_model (re : Q) (t : res xtable) (nd : res Q) (x : Q) : res (op
       | NoneVal => Val None
       | Val n =>
           let k := re * n * (1 # 100000000) in
-          Val (Some (oscale k (interp_nan (col1 tb) x), oscale k (interp_nan (col2 tb) x)))
+          Val (Some (oscale k (fst (sf tb x)), oscale k (snd (sf tb x))))
       end
   end.
-
-(* ------------------------------------------------------------------ the mass the code uses as "natural" *)
-(* natural_mass_ratio: el.element.mass when el has an .element (isotope -> its element,
-   ion -> its base, which for an isotope ion is the isotope), else el.mass *)
-Definition natmass_code (mass : Z -> Z -> Q) (a : atom) : Q :=
-  if Z.eqb (aq a) 0 then mass (az a) 0%Z
-  else mass (az a) (aa a).
